@@ -75,9 +75,9 @@ type c06Leaf struct {
 // c06Ref is the reference result for one key-value set.
 type c06Ref struct {
 	root   common.Hash
-	nodes  map[string][]byte // nibble path -> RLP blob of every stored (root or >=32 byte) node
+	nodes  map[string][]byte      // nibble path -> RLP blob of every stored (root or >=32 byte) node
 	hashes map[string]common.Hash // nibble path -> Keccak256 of that blob
-	leaves []c06Leaf         // ascending key order
+	leaves []c06Leaf              // ascending key order
 }
 
 type c06Alpha struct {
@@ -149,6 +149,68 @@ func c06AlphaKB32() *c06Alpha {
 	return c06NewAlpha("KB32",
 		[][]byte{c06Pad(0, 0, 0), c06Pad(0, 0, 1), c06Pad(0x10, 0, 0), c06Pad(0x11, 0, 0), c06Pad(0x20, 0, 0), c06Pad(0x30, 0, 0)},
 		[][]byte{c06Pad(0, 0, 2), c06Pad(0x12, 0, 0), c06Pad(0x40, 0, 0), make([]byte, 31)})
+}
+
+// c06BaseModels returns the base sets of the batch enumeration.
+func c06BaseModels(all bool) []c06Model {
+	var out []c06Model
+	if all {
+		for i := 0; i < c06NModels; i++ {
+			out = append(out, c06ModelOf(i))
+		}
+		return out
+	}
+	// every subset of the keys with three value patterns: all short, all long, alternating
+	seen := map[c06Model]bool{}
+	for sub := 0; sub < 1<<c06NKeys; sub++ {
+		for pat := 0; pat < 3; pat++ {
+			var m c06Model
+			for k := 0; k < c06NKeys; k++ {
+				if sub>>k&1 == 1 {
+					switch pat {
+					case 0:
+						m[k] = 1
+					case 1:
+						m[k] = 2
+					default:
+						m[k] = uint8(1 + (k+sub)%2)
+					}
+				}
+			}
+			if !seen[m] {
+				seen[m] = true
+				out = append(out, m)
+			}
+		}
+	}
+	return out
+}
+
+// c06AllShort reports whether m is non-empty and holds only short values.
+func c06AllShort(m c06Model) bool {
+	n := 0
+	for _, v := range m {
+		if v == 2 {
+			return false
+		}
+		n += int(v)
+	}
+	return n > 0
+}
+
+func c06Alternating(m c06Model) bool {
+	sub := 0
+	for k, v := range m {
+		if v != 0 {
+			sub |= 1 << k
+		}
+	}
+	for k, v := range m {
+		if v != 0 && v != uint8(1+(k+sub)%2) {
+			return false
+		}
+	}
+	return true
 }
 
 // ---------------------------------------------------------------------------
@@ -292,13 +354,20 @@ type c06MapStore struct {
 	m   map[string][]byte
 }
 
-func c06NewMapStore(scheme string, image map[string][]byte) *c06MapStore {
-	s := &c06MapStore{sch: scheme, m: make(map[string][]byte, len(image)+8)}
-	for p, b := range image {
+// c06NewMapStore returns a store holding the stored nodes of ref (nil: empty store).
+func c06NewMapStore(scheme string, ref *c06Ref) *c06MapStore {
+	s := &c06MapStore{sch: scheme}
+	if ref == nil {
+		s.m = make(map[string][]byte, 8)
+		return s
+	}
+	s.m = make(map[string][]byte, len(ref.nodes)+8)
+	for p, b := range ref.nodes {
 		if scheme == c06Path {
 			s.m[p] = b
 		} else {
-			s.m[string(crypto.Keccak256(b))] = b
+			h := ref.hashes[p]
+			s.m[string(h[:])] = b
 		}
 	}
 	return s
@@ -374,12 +443,13 @@ func (s *c06RawStore) dump() map[string][]byte {
 	for it.Next() {
 		k := it.Key()
 		if s.sch == c06Path {
-			ok, p := rawdb.ResolveAccountTrieNodeKey(k)
-			if !ok {
+			// Not rawdb.ResolveAccountTrieNodeKey: it rejects 64-nibble paths, which do occur here
+			// (two 32-byte keys differing only in the last nibble give leaf nodes at depth 64).
+			if !bytes.HasPrefix(k, rawdb.TrieNodeAccountPrefix) {
 				out["?"+string(k)] = common.CopyBytes(it.Value())
 				continue
 			}
-			out[string(p)] = common.CopyBytes(it.Value())
+			out[string(k[len(rawdb.TrieNodeAccountPrefix):])] = common.CopyBytes(it.Value())
 		} else {
 			out[string(k)] = common.CopyBytes(it.Value())
 		}
